@@ -160,6 +160,23 @@ def run(tier, seed):
         if r['error']['exception'] != 'ValueError':      # documented rejection of the input
             report_error(chk, 'geom', r)
     oracle(chk, good)
+    # the command line in front of the geometry layer
+    fc = [dict(id=i, seed=rng.randrange(10 ** 9), spec=gen.gen_geometry(rng)) for i in range(96 if tier == 'quick' else 4800)]
+    shards = [fc[k::NCPU] for k in range(NCPU) if fc[k::NCPU]]
+    nf_ = nsk = 0
+    for ok_, res in run_workers('geom.front', [dict(cases=s_) for s_ in shards]):
+        if not ok_:
+            chk.tie_broken('oracle', 'c13-front', 'real code could not be run: ' + str(res)[-600:]); continue
+        for r in res['results']:
+            if 'error' in r:
+                if r['error']['exception'] != 'ValueError': report_error(chk, 'c13-front', r)
+                continue
+            if r.get('skipped'): nsk += 1; continue
+            nf_ += 1
+            chk.add_case('front:' + json.dumps(r['spec'], sort_keys=True), r['ntrans'] + r['nscale'] > 0)
+            for b in r['bad']:
+                chk.violation(dict(stage='c13-front', what=b.split(' ')[0] + ' ' + b.split(' ')[1]), b, r['spec'])
+    chk.stages['c13-front'] = dict(command_lines=nf_, rejected=nsk)
     # mirror property on the real code
     mc = mirror_cases(rng, 40 if tier == 'quick' else 1600)
     ok_, res = run_worker('geom', dict(cases=mc))
